@@ -41,6 +41,11 @@ def run_one(pid, m):
                 return ('skipped', 'edit anchor occurs %d times in %s' % (s.count(ed['old']), ed['file']))
             s = s.replace(ed['old'], ed['new'])
             open(p, 'w').write(s)
+        if m.get('regen_flex'):
+            r0 = subprocess.run(['flex', '--outfile=./src/lex.yy.c', '--header-file=./include/lex.yy.h', '--noline', '--nounistd', './src/lexer.l'],
+                                cwd=os.path.join(tmp, 'Compiler'), capture_output=True, text=True)
+            if r0.returncode != 0:
+                return ('skipped', 'flex failed: ' + r0.stderr[:200])
         env = dict(os.environ)
         env['VERIF_REPO'] = tmp
         env['VERIF_EVIDENCE_DIR'] = os.path.join(tmp, '_evidence')
